@@ -92,6 +92,26 @@ def check_effects(case):
                         raise Violation('buffer_output', f'output {o} is a buffer')
     else:
         changed = not (res == c)
+        # what the LAST constituent pass promises holds for the result of the whole pipeline as well
+        rn = refsem.from_circuit(res)
+        if atoms and atoms[-1][0] == 'MDG':
+            seen = {}
+            for lab, ty, ops in rn['gates']:
+                if ty == 'INPUT':
+                    continue
+                key = (ty, tuple(sorted(ops)) if ty in refsem.SYMMETRIC else tuple(ops))
+                if key in seen:
+                    raise Violation('duplicates_remain', f'after a pipeline ending in MergeDuplicateGates: {seen[key]} and {lab} are both {ty}{ops}')
+                seen[key] = lab
+        if atoms and atoms[-1][0] == 'MEG':
+            t = refsem.tables(rn)
+            seen = {}
+            for lab, ty, ops in rn['gates']:
+                if ty == 'INPUT':
+                    continue
+                if t[lab] in seen:
+                    raise Violation('equivalents_remain', f'after a pipeline ending in MergeEquivalentGates: {seen[t[lab]]} and {lab} have the same truth table')
+                seen[t[lab]] = lab
     nt = len(atoms) >= 2 and changed
     return {'nt': nt or (len(atoms) == 1 and changed), 'cls': cls | gen.classify(nl) | simp.netlist_twin_classes(nl),
             'key': [nl['inputs'], nl['gates'], nl['outputs'], spec],
